@@ -57,6 +57,7 @@ type Contract struct {
 	Pos      string
 	NoInline bool
 	Lock     string // informational
+	SortLen  int    // sortlen 3: sort.Sort calls in this function sort exactly three elements (checked)
 }
 
 func (c *Contract) props() []string {
@@ -110,7 +111,7 @@ type ContractTable struct {
 	Assumed []string // textual list of every trusted / iface / axiom / assume line (scan)
 }
 
-var kwRe = regexp.MustCompile(`^(func|trusted func|iface|pure func|hfunc|ufunc|axiom|requires|ensures|assumes|modifies|loop|invariant|safety|let|letold|noinline|params|lock)\b`)
+var kwRe = regexp.MustCompile(`^(func|trusted func|iface|pure func|hfunc|ufunc|axiom|requires|ensures|assumes|modifies|loop|invariant|safety|let|letold|noinline|params|lock|sortlen)\b`)
 var tagRe = regexp.MustCompile(`^\[([A-Za-z0-9_,.\- ]+)\]\s*`)
 
 type rawLine struct {
@@ -247,6 +248,10 @@ func (p *Program) parseContractFile(pkg *packages.Package, file string) error {
 		case "lock":
 			if cur != nil {
 				cur.Lock = rest
+			}
+		case "sortlen":
+			if cur != nil {
+				cur.SortLen, _ = strconv.Atoi(rest)
 			}
 		case "hfunc":
 			pf, err := p.parsePure(pkg, rest, false)
